@@ -1261,6 +1261,11 @@ class Interp:
             return
         if isinstance(obj, SArr) and name == "flags":
             raise Unsupported("flags assignment")
+        if isinstance(obj, PyRaise) and name == "args":
+            # e.args = (...): the message of the exception being handled is replaced
+            obj.args = tuple(v) if isinstance(v, (tuple, list)) else (v,)
+            obj.eargs = obj.args
+            return
         raise Unsupported(f"attribute store on {type(obj).__name__}.{name}")
 
     def setitem(self, obj, key, v):
@@ -1730,6 +1735,12 @@ class Interp:
 
     def funcref_for(self, fn, f):
         if isinstance(fn, types.MethodType):
+            # a method of a concrete (module-level) object of the library: only a callee contract
+            # named "<Class>.<method>" can stand for it (the object itself is not modelled)
+            short = f"{type(fn.__self__).__qualname__}.{fn.__name__}"
+            key = f"{fn.__func__.__module__}:{short}"
+            if key in f.unit.callees or short in f.unit.callees:
+                return FuncRef(None, key, module=fn.__func__.__module__)
             raise Unsupported("bound method of a concrete dclab object")
         mod = fn.__module__
         path = mod.replace(".", "/") + ".py"
